@@ -263,4 +263,39 @@ def r17_7(ctx):
     ctx.check("indent_line = f\"{character}{' ' * (_indent_size - 1)}\"" in src or "indent_line" in src, f.fq, "indent_line", f.where, "one guide character plus spaces per indent level", "indent_line is no longer one guide character plus spaces")
 
 
-RULES = [r17_1, r17_2, r17_3, r17_4, r17_5, r17_7]
+def r17_8(ctx):
+    ctx.rule("R17.8", "the line reported for a traceback frame is the line that was executing when the exception passed through it: in Traceback.extract the Frame's lineno is the line number yielded by traceback.walk_tb (tb_lineno) for that frame - not the frame object's current f_lineno (which has moved on to a finally / except clause) - and the filename comes from that same frame's code object")
+    f = ctx.repo.fn("traceback:Traceback.extract")
+    m = f.module
+    loops = [x for x in walk_local(f.node) if isinstance(x, ast.For) and isinstance(x.iter, ast.Call) and norm(x.iter.func).endswith("walk_tb") and isinstance(x.target, ast.Tuple) and len(x.target.elts) == 2]
+    if len(loops) != 1:
+        raise AnchorVanished("Traceback.extract: loop `for frame, line_no in walk_tb(traceback)` not found")
+    lp = loops[0]
+    fr, ln = (norm(e) for e in lp.target.elts)
+    frames = [c for c in ast.walk(lp) if isinstance(c, ast.Call) and norm(c.func) == "Frame"]
+    ctx.floor(len(frames), 1, "Frame(...) constructions in the walk_tb loop")
+    from ..astutil import inline as _inl, single_defs as _sdf
+    sd = {k: v for k, v in _sdf(f.node).items() if k not in (fr, ln)}
+    for c in frames:
+        lv = kwarg(c, "lineno")
+        ok = lv is not None and norm(_inl(lv, sd)) == ln
+        ctx.check(ok, f.fq, short(c), f"{m.relpath}:{c.lineno}", f"Frame.lineno is `{ln}`, the line walk_tb reports for this frame",
+                  f"Frame(lineno={norm(lv) if lv is not None else None}): not the line number yielded by walk_tb for this frame - for a frame that has moved on (finally block, re-raise in an except clause) the header, the code window and the marker point at the wrong line")
+        fn_ = kwarg(c, "filename")
+        # the names the filename is computed from, closed over the assignments in the loop body, lead back to this frame's code object
+        seen, work, roots = set(), [fn_] if fn_ is not None else [], []
+        while work:
+            e = work.pop()
+            for nd in ast.walk(e):
+                if isinstance(nd, ast.Attribute) and norm(nd) == f"{fr}.f_code.co_filename":
+                    roots.append(nd)
+                if isinstance(nd, ast.Name) and nd.id not in seen:
+                    seen.add(nd.id)
+                    for a in ast.walk(lp):
+                        if isinstance(a, ast.Assign) and any(isinstance(t, ast.Name) and t.id == nd.id for t in a.targets):
+                            work.append(a.value)
+        ok = bool(roots)
+        ctx.check(ok, f.fq, f"filename={norm(fn_) if fn_ is not None else None}", f"{m.relpath}:{c.lineno}", "the file is that of the same frame's code object", "Frame.filename is not taken from the walked frame's code object")
+
+
+RULES = [r17_1, r17_2, r17_3, r17_4, r17_5, r17_7, r17_8]
